@@ -6,4 +6,6 @@ CONSTANTS Tok = {"e","dot","dd","ipfs","ipns","ipld","IPFS","cidV0","cidV1b32","
           LenUri = 4
           LenName = 4
           LenNameW = 3
-INVARIANTS Idempotent NoDots PrintedIsCanonical SameRootCid MutableHasNoCid UriEqualsPath NameRoundTrip BinaryLaws TrailingSlashKept
+          LenSess = 4
+          LenOps = 4
+INVARIANTS Idempotent NoDots PrintedIsCanonical SameRootCid MutableHasNoCid UriEqualsPath NameRoundTrip BinaryLaws TrailingSlashKept ValueSemantics DerivedLaws NameValueLaws
